@@ -103,6 +103,7 @@ Definition spec_step (st : Z * list Z * option site) (e : event) : Z * list Z * 
   let '(cur, stk, s) := st in
   match e with
   | EvCall _ idx line col => (cur, stk, Some (cur, idx, line, col))
+  | EvImplicit idx line col => (cur, stk, Some (cur, idx, line, col))
   | EvEvalEnter f => (f, cur :: stk, s)
   | EvEvalLeave => match stk with [] => (cur, [], s) | c :: stk' => (c, stk', s) end
   end.
